@@ -23,6 +23,7 @@ def main():
     ap.add_argument("--tier", default="quick")
     ap.add_argument("--seed", default="1")
     ap.add_argument("--sub", action="append")
+    ap.add_argument("--sanitize", action="store_true")
     a = ap.parse_args()
     wt = tempfile.mkdtemp(prefix="vf-mut-", dir=os.environ.get("TMPDIR", "/tmp"))
     out = tempfile.mkdtemp(prefix="vf-out-", dir=os.environ.get("TMPDIR", "/tmp"))
@@ -34,6 +35,8 @@ def main():
             subprocess.run(["git", "-C", wt, "apply", os.path.abspath(a.patch)], check=True)
         env = dict(os.environ, VERIF_REPO=wt, VERIF_OUT=out, VERIF_SEED=a.seed)
         cmd = [os.path.join(VERIF, "check"), a.prop, "--tier", a.tier]
+        if a.sanitize:
+            cmd.append("--sanitize")
         for s in a.sub or []:
             cmd += ["--sub", s]
         r = subprocess.run(cmd, env=env, capture_output=True, text=True)
